@@ -576,7 +576,9 @@ def judge_real_vs_spec(c, real=None):
         tt, cc = real["tcorr"]
         sp = spec_tcorr(c, phi)
         texp = (np.array(c["steps"]) - c["steps"][0]) * float(c["dt"])
-        if not arr_close(cc, sp):
+        if float((np.abs(phi[0]) ** 2).sum()) < 1e-6:
+            pass        # 0/0: not judged
+        elif not arr_close(cc, sp):
             fails.append(("time_corr", f"time_corr={cc!r} but the definition gives {sp!r}"))
         elif not arr_close(tt, texp):
             fails.append(("time_corr:t", f"t={tt!r} expected {texp!r}"))
@@ -659,7 +661,11 @@ def run_cases(run, cases, count=True):
             elif W % 2 == 0 and list(ids) != mids:
                 dis.append((c, "time_average", f"W={W}: middle ids {list(ids)} vs model {mids}"))
         elif what == "tcorr":
-            model = np.array([bits2float(t) for t in toks[1:]])
+            if bits2float(toks[1]) < 1e-6:      # results /= results[0] with ψ ≈ 0 everywhere (e.g. l not matching a lattice): noise/noise
+                skipped += 1
+                run.hist("skipped_inside_margin_by_op", f"tcorr:{c['kind']}")
+                continue
+            model = np.array([bits2float(t) for t in toks[2:]])
             if not arr_close(real["tcorr"][1], model):
                 dis.append((c, "time_corr", f"real {real['tcorr'][1]!r} vs model {model!r}"))
         elif what == "scorr":
